@@ -317,3 +317,14 @@ Proof.
   - destruct (H x Hx) as (t & -> & _). discriminate.
   - destruct (H x Hx) as (t & -> & (_ & _ & _ & Hd)). intros _. exact Hd.
 Qed.
+
+(** a lock section that answers with an error has changed nothing (so a failing call leaves nothing behind that
+    could surface later, e.g. through a handle's drop) *)
+Lemma msec_err_unchanged (c : msec) (s : mstate) e : snd (msec_sem c s) = Err e -> fst (msec_sem c s) = s.
+Proof.
+  destruct c; cbn; unfold mem_update;
+    repeat match goal with
+           | |- context [match ?x with _ => _ end] => destruct x
+           | |- context [if ?b then _ else _] => destruct b
+           end; cbn; intros H; try discriminate H; reflexivity.
+Qed.
